@@ -1427,3 +1427,7 @@ pub(crate) mod tests {
         assert!(req.allow());
     }
 }
+
+#[cfg(any(kani, verif_replay))]
+#[path = "/verif/kani/acl.rs"]
+pub(crate) mod verif_kani_acl;
